@@ -13,71 +13,140 @@ SAME_OBJECT_CALLS = {"iterable", "wrapify", "scalarify", "deep_copy_not"}  # ret
 
 
 def owner_analysis(fn):
-    """owner tags, syntactically: names that may denote (or alias into) an argument.  A mutating
-    operation on such a name is a violation of the frame clause `modifies nothing reachable from the arguments`."""
+    """owner tags: names that may denote (or alias into) an argument, tracked in statement order (a name rebound to a
+    fresh value stops being an owner; branches are joined by union, loop bodies are run to a fixpoint, closures see
+    every name that is an owner anywhere in the function).  A mutating operation on an owner is a violation of the
+    frame clause `modifies nothing reachable from the arguments`."""
     params = {a.arg for a in fn.args.args + fn.args.kwonlyargs if a.arg not in ("ctx", "self")}
-    tainted = set(params)
-    changed = True
-    assigns = [n for n in ast.walk(fn) if isinstance(n, (ast.Assign, ast.AugAssign, ast.AnnAssign, ast.For, ast.NamedExpr))]
+    hits = set()
+    ever = set(params)
+    nested = []
 
-    def may_alias(e):
+    def may_alias(e, tainted):
         if isinstance(e, ast.Name):
             return e.id in tainted
         if isinstance(e, ast.IfExp):
-            return may_alias(e.body) or may_alias(e.orelse)
+            return may_alias(e.body, tainted) or may_alias(e.orelse, tainted)
         if isinstance(e, ast.BoolOp):
-            return any(may_alias(v) for v in e.values)
+            return any(may_alias(v, tainted) for v in e.values)
+        if isinstance(e, ast.NamedExpr):
+            return may_alias(e.value, tainted)
         if isinstance(e, ast.Call):
             f = e.func.id if isinstance(e.func, ast.Name) else getattr(e.func, "attr", None)
             if f in SAME_OBJECT_CALLS:
-                return any(may_alias(a) for a in e.args)
+                return any(may_alias(a, tainted) for a in e.args)
             return False
         if isinstance(e, ast.Subscript) and not isinstance(e.slice, ast.Slice):
-            return may_alias(e.value)  # an item of an argument is reachable from it
-        if isinstance(e, ast.Attribute):
-            return False
-        if isinstance(e, (ast.Tuple, ast.List)):
-            return False  # a fresh container (its items are not mutated through it by list ops on the container)
-        return False
+            return may_alias(e.value, tainted)  # an item of an argument is reachable from it
+        return False  # attributes, fresh containers, calls of anything else
 
-    while changed:
-        changed = False
-        for n in assigns:
-            if isinstance(n, ast.For):
-                targets, value = [n.target], n.iter
-                # iterating an argument yields its items (reachable)
-                src = may_alias(value) or (isinstance(value, ast.Call) and getattr(value.func, "id", None) in ("enumerate", "zip", "reversed") and any(may_alias(a) for a in value.args))
-            elif isinstance(n, ast.NamedExpr):
-                targets, src = [n.target], may_alias(n.value)
-            elif isinstance(n, ast.AugAssign):
+    def root_name(t):
+        while isinstance(t, (ast.Subscript, ast.Attribute)):
+            t = t.value
+        return t.id if isinstance(t, ast.Name) else None
+
+    def scan_expr(e, tainted, lineno):
+        """mutating calls inside one expression (lambdas and comprehensions included)"""
+        if e is None:
+            return
+        local = set(tainted)
+        for n in ast.walk(e):
+            if isinstance(n, ast.comprehension):
+                src = may_alias(n.iter, local) or (isinstance(n.iter, ast.Call) and getattr(n.iter.func, "id", None) in ("enumerate", "zip", "reversed") and any(may_alias(a, local) for a in n.iter.args))
+                if src:
+                    local |= {x.id for x in ast.walk(n.target) if isinstance(x, ast.Name)}
+        for n in ast.walk(e):
+            if isinstance(n, ast.Call) and isinstance(n.func, ast.Attribute) and n.func.attr in MUTATORS and isinstance(n.func.value, ast.Name) and n.func.value.id in local:
+                hits.add((n.lineno, f"{n.func.value.id}.{n.func.attr}(...)"))
+            if isinstance(n, ast.Call) and ast.unparse(n.func) in ("random.shuffle",) and n.args and isinstance(n.args[0], ast.Name) and n.args[0].id in local:
+                hits.add((n.lineno, ast.unparse(n)))
+            if isinstance(n, ast.NamedExpr) and isinstance(n.target, ast.Name):
+                (tainted.add if may_alias(n.value, local) else tainted.discard)(n.target.id)
+
+    def bind(targets, src, tainted):
+        for t in targets:
+            if isinstance(t, ast.Name):
+                (tainted.add if src else tainted.discard)(t.id)
+            elif isinstance(t, (ast.Tuple, ast.List)):
+                bind(t.elts, src, tainted)
+            elif isinstance(t, ast.Starred):
+                bind([t.value], src, tainted)
+
+    def run(stmts, tainted):
+        for st in stmts:
+            ever.update(tainted)
+            if isinstance(st, (ast.FunctionDef, ast.AsyncFunctionDef)):
+                nested.append(st)
                 continue
+            if isinstance(st, (ast.Assign, ast.AnnAssign)):
+                scan_expr(st.value, tainted, st.lineno)
+                targets = st.targets if isinstance(st, ast.Assign) else [st.target]
+                for t in targets:
+                    if isinstance(t, (ast.Subscript, ast.Attribute)) and root_name(t) in tainted:
+                        hits.add((st.lineno, ast.unparse(t) + " = ..."))
+                if st.value is not None:
+                    bind(targets, may_alias(st.value, tainted), tainted)
+            elif isinstance(st, ast.AugAssign):
+                scan_expr(st.value, tainted, st.lineno)
+                if isinstance(st.target, (ast.Subscript, ast.Attribute)) and root_name(st.target) in tainted:
+                    hits.add((st.lineno, ast.unparse(st.target) + " = ..."))
+            elif isinstance(st, ast.For):
+                scan_expr(st.iter, tainted, st.lineno)
+                src = may_alias(st.iter, tainted) or (isinstance(st.iter, ast.Call) and getattr(st.iter.func, "id", None) in ("enumerate", "zip", "reversed") and any(may_alias(a, tainted) for a in st.iter.args))
+                for _ in range(3):
+                    before = set(tainted)
+                    if src:
+                        tainted |= {x.id for x in ast.walk(st.target) if isinstance(x, ast.Name)}
+                    else:
+                        bind([st.target], False, tainted)
+                    run(st.body, tainted)
+                    tainted |= before
+                    if tainted == before:
+                        break
+                run(st.orelse, tainted)
+            elif isinstance(st, ast.While):
+                for _ in range(3):
+                    before = set(tainted)
+                    scan_expr(st.test, tainted, st.lineno)
+                    run(st.body, tainted)
+                    tainted |= before
+                    if tainted == before:
+                        break
+                run(st.orelse, tainted)
+            elif isinstance(st, ast.If):
+                scan_expr(st.test, tainted, st.lineno)
+                a, b = set(tainted), set(tainted)
+                run(st.body, a)
+                run(st.orelse, b)
+                tainted.clear()
+                tainted |= a | b
+            elif isinstance(st, ast.Try):
+                before = set(tainted)
+                run(st.body, tainted)
+                outs = set(tainted) | before
+                for h in st.handlers:
+                    hs = set(outs)
+                    run(h.body, hs)
+                    tainted |= hs
+                run(st.orelse, tainted)
+                run(st.finalbody, tainted)
+            elif isinstance(st, ast.With):
+                for it in st.items:
+                    scan_expr(it.context_expr, tainted, st.lineno)
+                run(st.body, tainted)
             else:
-                targets = n.targets if isinstance(n, ast.Assign) else [n.target]
-                src = n.value is not None and may_alias(n.value)
-            if not src:
-                continue
-            for t in targets:
-                for x in ast.walk(t):
-                    if isinstance(x, ast.Name) and x.id not in tainted:
-                        tainted.add(x.id)
-                        changed = True
-    hits = []
-    for n in ast.walk(fn):
-        if isinstance(n, ast.Call) and isinstance(n.func, ast.Attribute) and n.func.attr in MUTATORS and isinstance(n.func.value, ast.Name) and n.func.value.id in tainted:
-            hits.append((n.lineno, f"{n.func.value.id}.{n.func.attr}(...)"))
-        if isinstance(n, (ast.Assign, ast.AugAssign)):
-            for t in (n.targets if isinstance(n, ast.Assign) else [n.target]):
-                if isinstance(t, (ast.Subscript, ast.Attribute)):
-                    root = t.value
-                    while isinstance(root, (ast.Subscript, ast.Attribute)):
-                        root = root.value
-                    if isinstance(root, ast.Name) and root.id in tainted:
-                        hits.append((n.lineno, ast.unparse(t) + " = ..."))
-                if isinstance(n, ast.AugAssign) and isinstance(t, ast.Name) and t.id in params and isinstance(n.op, ast.Add) and isinstance(n.value, (ast.List, ast.Call, ast.Name)):
-                    pass  # x += y rebinds for str/int; for lists it extends in place: flagged only when x is known to be a list below
-        if isinstance(n, ast.Call) and ast.unparse(n.func) in ("random.shuffle",) and n.args and isinstance(n.args[0], ast.Name) and n.args[0].id in tainted:
-            hits.append((n.lineno, ast.unparse(n)))
-    return hits
+                for child in ast.iter_child_nodes(st):
+                    if isinstance(child, ast.expr):
+                        scan_expr(child, tainted, st.lineno)
+        ever.update(tainted)
+
+    run(fn.body, set(params))
+    done = 0
+    while done < len(nested):  # closures run at an unknown time: every name that is an owner anywhere counts
+        nd = nested[done]
+        done += 1
+        run(nd.body, set(ever))
+    return sorted(hits)
 
 
 class C10(Prop):
